@@ -152,6 +152,49 @@ DataAt(b, li, inst, d) ==
       rd == WDatas(b, rg.w, li, 1, d - 1, rg.e)
   IN [w |-> rd.w, da |-> rd.e]
 
+\* sbepp::visit(message): the in-order traversal of everything with one plain
+\* cursor (fields through the cursor accessors, groups through cursor ranges -
+\* entries constructed from the cursor -, data through the cursor accessor)
+IsEmptyEntry(li) == Len(LFields[li]) = 0 /\ NG(li) = 0 /\ ND(li) = 0
+MaxVisit == 64
+RECURSIVE WVisitLevel(_, _, _, _, _), WVisitFields(_, _, _, _, _), WVisitGroups(_, _, _, _, _, _),
+          WVisitEntries(_, _, _, _, _, _), WVisitDatas(_, _, _, _, _, _)
+WVisitFields(b, w, li, a, k) ==
+  IF k > Len(LFields[li]) \/ w.dead THEN w
+  ELSE LET f == LFields[li][k]
+           fs == a + f.off
+           req == IF k = 1 THEN a ELSE a + LFields[li][k - 1].off + LFields[li][k - 1].size
+       IN WVisitFields(b, IF f.kind = "scalar" THEN Acc(b, w, fs, f.size, req, fs, fs + f.size)
+                          ELSE ReqOnly(b, w, fs, fs + f.size), li, a, k + 1)
+\* bl: carried wire block length of an entry; -1 for the message (read from its header)
+WVisitLevel(b, w, li, a, bl) ==
+  LET wf == WVisitFields(b, w, li, a, 1)
+      any == Len(LFields[li]) > 0 \/ NG(li) > 0 \/ ND(li) > 0
+      rb == IF bl < 0 /\ any THEN RootBL(b, wf) ELSE [w |-> wf, v |-> IF bl < 0 THEN 0 ELSE bl]
+      rg == WVisitGroups(b, rb.w, li, a, 1, a + rb.v)
+  IN WVisitDatas(b, rg.w, li, a, 1, rg.e)
+WVisitGroups(b, w, li, a, g, pos) ==
+  IF g > NG(li) \/ w.dead THEN [w |-> w, e |-> pos]
+  ELSE LET gli == LChild[li][g]
+           w0 == ReqOnly(b, ReqOnly(b, w, a, pos), pos, pos + LDimSize[gli])
+           r1 == DimBL(b, w0, gli, pos)
+           r2 == DimN(b, r1.w, gli, pos)
+           re == IF IsEmptyEntry(gli)
+                 THEN LET sz == MulC(r2.v, r1.v)
+                      IN [w |-> ReqOnly(b, [r2.w EXCEPT !.far = @ \/ sz >= Big], pos + LDimSize[gli], pos + LDimSize[gli] + sz),
+                          e |-> pos + LDimSize[gli] + sz]
+                 ELSE IF r2.v > MaxVisit THEN [w |-> [r2.w EXCEPT !.far = TRUE, !.dead = TRUE], e |-> pos]
+                 ELSE WVisitEntries(b, r2.w, gli, pos + LDimSize[gli], r1.v, r2.v)
+       IN WVisitGroups(b, re.w, li, a, g + 1, re.e)
+WVisitEntries(b, w, gli, ea, bl, k) ==
+  IF k = 0 \/ w.dead THEN [w |-> w, e |-> ea]
+  ELSE LET r == WVisitLevel(b, w, gli, ea, bl)
+       IN WVisitEntries(b, r.w, gli, r.e, bl, k - 1)
+WVisitDatas(b, w, li, a, d, pos) ==
+  IF d > ND(li) \/ w.dead THEN [w |-> w, e |-> pos]
+  ELSE LET r == Prefix(b, ReqOnly(b, w, a, pos), li, d, pos, pos)
+       IN WVisitDatas(b, r.w, li, a, d + 1, pos + LLenW[li][d] + r.v)
+
 ----------------------------------------------------------------------------
 (* Operations *)
 \* recv: start of the view (or the cursor position) the final call is made on
@@ -239,7 +282,8 @@ MessageOps(b) ==
   LET O(kind, w) == Mk("header", kind, 1, <<>>, <<>>, <<>>, <<>>, w, TRUE, FALSE, V0)
   IN <<O("m_hdr", ReqOnly(b, W0, V0, V0 + HSize)),
        O("m_hdr_bl", RootBL(b, W0).w),
-       O("m_fill_hdr", HdrMember(b, HdrMember(b, HdrMember(b, HdrMember(b, W0, "schemaId"), "templateId"), "version"), "blockLength"))>>
+       O("m_fill_hdr", HdrMember(b, HdrMember(b, HdrMember(b, HdrMember(b, W0, "schemaId"), "templateId"), "version"), "blockLength")),
+       Mk("visit", "m_visit", 1, <<>>, <<>>, <<>>, <<>>, WVisitLevel(b, W0, 1, V0 + HSize, -1).w, TRUE, FALSE, V0)>>
 
 \* ---- groups: the g-th group of instance inst
 GroupOps(b, li, ip, inst, g) ==
